@@ -38,6 +38,7 @@ Context {F W : Type}.
 Variable f1 : F -> list Qc -> list Qc.
 Variable f2 : F -> list Qc -> nat -> list Qc.
 Variable wsem : W -> wndarg.
+Variable falsy : F -> bool.
 Notation val := (val F W).
 Notation kwl := (kwl F W).
 
@@ -103,8 +104,8 @@ Definition stage2_fun (size : nat) (v : val) : option bfun :=
 
 Lemma stage1_ok v : is_stage v = true -> stage1 f1 (Some v) = inr (stage1_fun v).
 Proof. destruct v; simpl; try discriminate; reflexivity. Qed.
-Lemma stage2_ok size v : is_stage v = true -> stage2 f2 size (Some v) = inr (stage2_fun size v).
-Proof. destruct v; simpl; try discriminate; reflexivity. Qed.
+Lemma stage2_ok size v : is_stage2 falsy v = true -> stage2 f1 f2 falsy size (Some v) = inr (stage2_fun size v).
+Proof. destruct v as [| | | |f| |]; simpl; try discriminate; [reflexivity|]. destruct (falsy f); [discriminate|reflexivity]. Qed.
 
 Lemma compose_stages_eq size tr itr bef aft func blk :
   opt_app (stage1_fun aft) (opt_app (stage2_fun size itr) (f1 func
@@ -135,12 +136,12 @@ Qed.
 
 (* ------------------------------------------------------------------ model = promise *)
 Theorem stft_model_meets_promise gc (layers : list kwl) func sig :
-  match stft_promise f1 f2 wsem gc layers func sig with
+  match stft_promise f1 f2 wsem falsy gc layers func sig with
   | PSilent => True
-  | PBlocks b => stft_model f1 f2 wsem gc layers func sig = SBlocks b None
-  | PUser id b => exists op, stft_model f1 f2 wsem gc layers func sig = SUser id op b None /\
+  | PBlocks b => stft_model f1 f2 wsem falsy gc layers func sig = SBlocks b None
+  | PUser id b => exists op, stft_model f1 f2 wsem falsy gc layers func sig = SUser id op b None /\
                              forall q, dict_get op q = spec_ola_param layers q
-  | PSamples out => stft_model f1 f2 wsem gc layers func sig = SSamples out None
+  | PSamples out => stft_model f1 f2 wsem falsy gc layers func sig = SSamples out None
   end.
 Proof.
   unfold stft_promise.
@@ -157,7 +158,7 @@ Proof.
   destruct (spec_lookup layers "before") as [bef|] eqn:Ebef; [|exact I].
   destruct (spec_lookup layers "after") as [aft|] eqn:Eaft; [|exact I].
   destruct (spec_lookup layers "ola") as [ola|] eqn:Eola; [|exact I].
-  destruct (is_stage tr && is_stage itr && is_stage bef && is_stage aft) eqn:Est; [|exact I]. cbn [negb].
+  destruct (is_stage2 falsy tr && is_stage2 falsy itr && is_stage bef && is_stage aft) eqn:Est; [|exact I]. cbn [negb].
   apply andb_true_iff in Est as [Est Saft]. apply andb_true_iff in Est as [Est Sbef].
   apply andb_true_iff in Est as [Str Sitr].
   destruct (spec_wnd size (wnd_of_val wsem match spec_lookup layers "wnd" with Some v => v | None => VNone end))
@@ -174,7 +175,7 @@ Proof.
   assert (Hgen : forall (Hnone : spec_lookup layers "ola" = Some VNone ->
                                   forall k, In k (all_keys layers) -> is_ola_key k = false),
      exists op, (forall q, dict_get op q = spec_ola_param layers q) /\
-       stft_model f1 f2 wsem gc layers func sig =
+       stft_model f1 f2 wsem falsy gc layers func sig =
        match ola with
        | VNone => SBlocks (stft_blocks_spec f1 f2 size h w tr itr bef aft func sig) None
        | VOla OlaList => ola_list_call wsem gc op (stft_blocks_spec f1 f2 size h w tr itr bef aft func sig) None
@@ -242,12 +243,12 @@ Qed.
    the text promises for it. *)
 Definition call_ok gc (c : list kwl * F * list Qc) : Prop :=
   let '(layers, func, sig) := c in
-  match stft_promise f1 f2 wsem gc layers func sig with
+  match stft_promise f1 f2 wsem falsy gc layers func sig with
   | PSilent => True
-  | PBlocks b => stft_model f1 f2 wsem gc layers func sig = SBlocks b None
-  | PUser id b => exists op, stft_model f1 f2 wsem gc layers func sig = SUser id op b None /\
+  | PBlocks b => stft_model f1 f2 wsem falsy gc layers func sig = SBlocks b None
+  | PUser id b => exists op, stft_model f1 f2 wsem falsy gc layers func sig = SUser id op b None /\
                              forall q, dict_get op q = spec_ola_param layers q
-  | PSamples out => stft_model f1 f2 wsem gc layers func sig = SSamples out None
+  | PSamples out => stft_model f1 f2 wsem falsy gc layers func sig = SSamples out None
   end.
 
 Theorem stft_calls_independent gc (calls : list (list kwl * F * list Qc)) : Forall (call_ok gc) calls.
